@@ -290,6 +290,27 @@ def merge_reports(pid, results):
     return m
 
 
+class RepoLock:
+    """Shared lock on /repo's sources while a check builds; bin/seedtest holds it exclusively while a
+    seeded change is applied, so a check running in the background never compiles a half-applied tree."""
+
+    def __enter__(self):
+        self.f = None
+        if os.environ.get("XV_NO_REPO_LOCK"):
+            return self
+        try:
+            self.f = open("/tmp/xv-repo.lock", "a")
+            fcntl.flock(self.f, fcntl.LOCK_SH)
+        except OSError:
+            self.f = None
+        return self
+
+    def __exit__(self, *a):
+        if self.f:
+            fcntl.flock(self.f, fcntl.LOCK_UN)
+            self.f.close()
+
+
 def run_check(pid, tier, seed):
     from xvconf import PROPS
     if pid not in PROPS:
@@ -303,16 +324,18 @@ def run_check(pid, tier, seed):
     if conf.get("custom"):
         import crashdrive
         try:
-            for (profile, pkg) in sorted({(j.profile, j.pkg) for j in jobs}):
-                build(profile, pkg)
+            with RepoLock():
+                for (profile, pkg) in sorted({(j.profile, j.pkg) for j in jobs}):
+                    build(profile, pkg)
         except BuildError as e:
             print(f"INCONCLUSIVE property={pid} reason=build-failed {e}")
             return 3
         m, inconclusive_workers, n_tasks = crashdrive.run(pid, tier, seed, conf)
         return finish(pid, tier, seed, conf, m, inconclusive_workers, n_tasks, t0)
     try:
-        for j in jobs:
-            build_job(j)
+        with RepoLock():
+            for j in jobs:
+                build_job(j)
     except BuildError as e:
         print(f"INCONCLUSIVE property={pid} reason=build-failed {e}")
         return 3
